@@ -250,6 +250,47 @@ def instruction_variants_built(db, fn, depth=2):
     return out
 
 
+BODY_ADDING = ("push", "extend", "insert", "append", "splice", "extend_from_slice", "push_within_capacity", "resize", "resize_with", "insert_many")
+# functions that may add to `Program.instructions` directly, each confirmed by reading
+BODY_WRITERS = {
+    "quil_rs::program::Program::add_instruction": "the router itself: the catch-all and the body-kind arms push, every keyed kind goes to its store",
+    "<quil_rs::program::Program as std::ops::AddAssign>::add_assign": "appends the body of another Program, whose instructions were routed when that program was built",
+}
+
+
+def body_appenders(db):
+    """[(fn, call name, bb)] for calls that add elements to the `instructions` field of a Program through a direct borrow"""
+    out = []
+    for f in db.fns:
+        if f.is_derived():
+            continue
+        for i, j, s_ in f.stmts():
+            if s_["k"] == "assign" and s_["rv"]["k"] == "ref" and s_["rv"].get("m") == "mut" and any(isinstance(pr, dict) and pr.get("o") == PROGRAM and pr.get("n") == "instructions" for pr in s_["rv"]["p"]["pr"]):
+                l = s_["p"]["l"]
+                for bb, t, c in f.calls():
+                    if c and c.get("name") in BODY_ADDING and t["args"] and (t["args"][0].get("m") or t["args"][0].get("c") or {}).get("l") == l:
+                        out.append((f, c.get("name"), bb))
+    return out
+
+
+def body_writer_rule(db, res, prefix="K6"):
+    """only the router (and the whitelisted merges) append to the body: anything else bypasses the routing of keyed
+    definitions (DECLARE, DEFFRAME, ... would stay in the body) and the bookkeeping done there"""
+    apps = body_appenders(db)
+    seen = set()
+    for f, nm, bb in apps:
+        owner = f.path.split("::{closure")[0]
+        key = "%s|body-appended-only-by-router|%s" % (prefix, owner)
+        if key in seen:
+            continue
+        seen.add(key)
+        ok = owner in BODY_WRITERS
+        res.site(key, True, {"fn": owner, "call": nm, "verdict": "ok: " + BODY_WRITERS[owner] if ok else "VIOLATION"})
+        if not ok:
+            res.find(key, f.loc(), "%s adds to Program.instructions directly (%s) instead of going through add_instruction: a keyed definition among the added instructions stays in the body and is not registered in its store" % (owner, nm), "a DECLARE inside a DEFCAL body is left in the program body by expand_calibrations() but hoisted by expand_calibrations_with_source_map()")
+    res.count("body_appending_functions", len(seen), floor=2)
+
+
 def run(ctx):
     res = Result("C09")
     db = ctx.db("quil_rs")
@@ -448,6 +489,7 @@ def run(ctx):
                     res.site(key, True, {"conditions": conds, "verdict": "VIOLATION"})
                     res.find(key, h.loc(t.get("sp")), "Program::%s appends one of its sections only under a condition (%s); the other listing appends it always" % (h.name, conds), "a program with only DEFCAL MEASURE definitions loses them in into_instructions but not in to_instructions")
     res.site("K7|listing-section-unconditional", True, {"verdict": "checked"})
+    body_writer_rule(db, res)
     # which PRAGMAs leave the body: exactly those whose name IS the reserved word (an exact ==), because the listing writes
     # them back under exactly that name; any looser test (case-insensitive, prefix) moves an ordinary body PRAGMA into the
     # keyed extern store, where it loses its position and can be replaced by a later one
